@@ -21,7 +21,7 @@ from ..runner import Acc
 PROP = "C05"
 LEVEL = "exploration"
 
-REAL = ["direct", "arg", "default", "if", "argname", "argkey"]
+REAL = ["direct", "arg", "default", "if", "argname", "argkey", "colon"]   # colon: pages of the main namespace transcluded as {{:P}}
 ATOMS = ["", "x", "0", "1", "-1", "1.5", "1e9", "12345678901234567890", "Talk:x", "a/b/c", "{{e}}", "=", "²", "{{e|²=1}}",
          # argument names that look numeric but cannot be converted: non-ASCII digit, more digits than int() accepts
          "{{pu|x}}", "{{#invoke}}", "{{#invoke:}}", "{{#invoke:m}}", "²=1", "9" * 5000 + "=1", "{{e|" + "9" * 5000 + "=1}}", "{{{" + "1" * 5000 + "|}}}"]
@@ -100,6 +100,8 @@ def edge_text(real, j):
         return "{{{ " + call + " }}}"          # the call sits in the name of a parameter reference
     if real == "argkey":
         return "{{e|" + call + "=1}}"          # the call sits in the key of a named argument
+    if real == "colon":
+        return "{{:P%d}}" % j
     return "{{#if:1|" + call + "}}"
 
 
@@ -113,6 +115,8 @@ def edge_ast(real, j):
         return ("P", "zz", call)
     if real in ("argname", "argkey"):
         return None                            # no reference output for these realisations (only totality / loop reporting)
+    if real == "colon":
+        return call
     return ("IF", ("T", "1"), call, ("T", ""))
 
 
@@ -149,12 +153,14 @@ def run_graph(ctx, n, edges, real, start, title="Tt"):
         outs = [j for (a, j) in edges if a == i]
         body = "T%d" % i + "".join(edge_text(real, j) for j in outs)
         ctx.add_page("Template:t%d" % i, 10, body)
+        if real == "colon":
+            ctx.add_page("P%d" % i, 0, body)
         lib["t%d" % i] = (("SEQ", [("T", "T%d" % i)] + [edge_ast(real, j) for j in outs if edge_ast(real, j) is not None]), "none")
     ctx.start_page(title)
     out = []
     try:
         with time_limit(GRAPH_LIMIT):
-            got = ctx.expand("{{t%d}}" % start)
+            got = ctx.expand(("{{:P%d}}" if real == "colon" else "{{t%d}}") % start)
     except Timeout:
         return [("returns_in_bounded_time", "no result within %.0f s" % GRAPH_LIMIT, "returns")]
     except RecursionError:
